@@ -229,6 +229,10 @@ type Script struct {
 	// OnPlay, when set, is called when a PLAY request is about to be answered
 	// (whatever the answer will be), before any byte of the answer is written.
 	OnPlay         func()
+	// Gate, when set, is called with the step of every request before the camera
+	// acts on it (answers, fails, stays silent): a harness can hold a camera's
+	// reaction back until the situation it wants has been reached.
+	Gate           func(step Step)
 	SessionTimeout bool // append ";timeout=60" to the Session header (RFC 2326 §12.37)
 }
 
@@ -1038,6 +1042,9 @@ func (cn *conn) handle(r *Request) bool {
 	var b Behaviour
 	if step >= 0 && step < NumSteps {
 		b = sc.Steps[step]
+	}
+	if sc.Gate != nil {
+		sc.Gate(step)
 	}
 	// scripted challenges come first
 	if b.Kind == Basic401 || b.Kind == Digest401 {
